@@ -67,6 +67,11 @@ class Ctx:
         self.replay_mode = False
         self.shard, self.nshards = 0, 1
         self.budget_s: float | None = None
+        self.scale = 1.0  # < 1 for the reduced companion run under `python -O`
+
+    def n(self, x) -> int:
+        """Workload size scaled for this run."""
+        return max(1, int(round(x * self.scale)))
 
     # ---- counting -------------------------------------------------------
     def count(self, key: str, n: int = 1):
@@ -100,6 +105,11 @@ class Ctx:
         The smallest witness per mechanism is kept.
         """
         self.count("violations_seen")
+        if sys.flags.optimize and isinstance(case, dict):
+            # seen by a run under `python -O` (assert statements and `if __debug__:` blocks compiled away):
+            # the replay has to run the same way
+            case = dict(case, python_O=True)
+            what += " [interpreter running with -O]"
         size = len(json.dumps(case, default=repr))
         old = self.violations.get(mechanism)
         if old is None or size < old["size"]:
